@@ -7,6 +7,10 @@ E1_PROPS = ("C01", "C02", "C04", "C12", "C13")
 
 
 def run(prop: str, tier: str) -> int:
+    from . import common
+
+    if tier == "thorough" and "VERIF_SHARD_LIMIT" not in __import__("os").environ:
+        common.SHARD_LIMIT_S = 6 * 3600  # thorough shards (n = 7, one label) legitimately run for up to an hour
     if prop in E1_PROPS:
         from . import props_e1
 
